@@ -257,18 +257,13 @@ func (ex *Exec) merge(fr *Frame, b *ssa.BasicBlock, ins []*State, preds []int) *
 	}
 	for k := range keys {
 		var vs []Val
-		okAll := true
 		for _, s := range ins {
 			v, ok := s.vars[k]
-			if !ok {
-				okAll = false
-				break
+			if !ok || v.L == nil {
+				// the local was not declared on this path: its value is irrelevant there
+				v = zeroVal(k.Type().(*types.Pointer).Elem())
 			}
 			vs = append(vs, v)
-		}
-		if !okAll {
-			delete(n.vars, k)
-			continue
 		}
 		ls := flatten(vs[0].T)
 		nv := Val{T: vs[0].T, L: make([]string, len(vs[0].L)), Clos: vs[0].Clos}
@@ -630,7 +625,7 @@ func (ex *Exec) storeField(st *State, S types.Type, f *types.Var, ref string, v 
 		}
 		ex.heapSet(st, k, srt, store(ex.heapGet(st, k, srt), ref, v.L[i]))
 	}
-	ex.storedRefs = append(ex.storedRefs, storedRef{T: S, Ref: ref})
+	ex.storedRefs = append(ex.storedRefs, storedRef{T: S, Ref: ref, PC: st.pc})
 }
 
 // slice element access
@@ -1105,6 +1100,13 @@ func (ex *Exec) afterLoad(fr *Frame, st *State, v Val) {
 	}
 	if len(ls) == 1 && ls[0].Sort == sStr {
 		ex.assume("true", nonNeg(app("strlen", v.L[0])))
+	}
+	// objects reachable through the heap satisfy their type invariant at visible states
+	// (objects this function is in the middle of changing are re-checked at its exits)
+	if ex.invDepth == 0 && ex.specMode == 0 && (len(v.L) == 1 || len(v.L) == 2) {
+		if rc := ex.rootFrame; rc == nil || rc.ct == nil || !rc.ct.NoInv {
+			ex.assumeTypeInv(fr, st, v)
+		}
 	}
 }
 
